@@ -47,7 +47,9 @@ def tables():
 
 def jobs(tier):
     n = 100 if tier == "quick" else 3000
-    return [{"name": "labels-real", "n": n, "eop": "real"}, {"name": "labels-const", "n": n, "eop": "const"}]
+    # labels-none: no tables at all (policy "pass"): every correction is zero, TAI = UTC = UT1 and only GPS, TT, TDB differ
+    return [{"name": "labels-real", "n": n, "eop": "real"}, {"name": "labels-const", "n": n, "eop": "const"},
+            {"name": "labels-none", "n": max(40, n // 3), "eop": "zero"}]
 
 
 def requirements(tier):
@@ -60,6 +62,8 @@ def requirements(tier):
 def forced(job):
     if job["eop"] == "const":
         return dict(ut1_utc=0.01756018472222477, tai_utc=36.0)
+    if job["eop"] == "zero":
+        return dict(ut1_utc=0.0, tai_utc=0.0)
     return {}
 
 
